@@ -216,9 +216,12 @@ func Main(args []string) error {
 			ns = append(ns, n)
 		}
 		for _, k := range []int64{2, 1000} {
+			if k == 1000 && cs.periods > 0 {
+				continue
+			}
 			ns = append(ns, k*BN-1, k*BN, k*BN+1)
 		}
-		if cs.ast == 0 {
+		if cs.ast == 0 && cs.periods == 0 { // (multi-period + stop: instants stay within hours of the stop time)
 			kf := int64(1_750_000_000) * brk.TS / brk.L
 			ns = append(ns, kf*BN-1, kf*BN, kf*BN+1+int64(rng.Intn(int(BN))))
 		}
